@@ -14,10 +14,14 @@ FirstX == 0..255
 
 DataOf(len, b) == [i \in 1..len |-> IF i = 1 THEN b ELSE (i * 31) % 256]
 
-VARIABLE f
-Init == f \in UNION { { MkFrame(a, t, DataOf(n, b)) : a \in Addrs, t \in TypesX, b \in (IF n = 0 THEN {0} ELSE FirstX) } : n \in Lens }
-Next == UNCHANGED f
-Spec == Init /\ [][Next]_f
+\* two levels so that TLC's workers share the enumeration: one initial state per message type, whose successors are the frames
+VARIABLES t, f
+NoFrame == MkFrame(0, 0, <<>>)
+FramesOfType(ty) ==
+    UNION { { MkFrame(a, ty, DataOf(n, b)) : a \in Addrs, b \in (IF n = 0 THEN {0} ELSE IF n = 255 THEN {0, 1, 85, 149, 161, 255} ELSE FirstX) } : n \in Lens }
+Init == t \in TypesX /\ f = NoFrame
+Next == f = NoFrame /\ f' \in FramesOfType(t) /\ UNCHANGED t
+Spec == Init /\ [][Next]_<<t, f>>
 
 m == FrameToMsg(f)
 n0 == Len(f.data)
